@@ -63,6 +63,26 @@ def run(ctx):
     def scope(case, d):
         return d["layer"].startswith("IMPL-") or in_scope_core(case, d)
     report_core_disagreements(ctx, cases, dis, in_scope=scope, known=known)
+    # RunFiles (the other way to run a program): every mode, files around and well above the reader's 4096-byte window,
+    # matches near the start / near the end / none; a panic, a fatal error or a hang is a violation
+    def big(n, marks):
+        b = bytearray(rng.choice(b"xyz.- \n") for _ in range(n))
+        for off in marks:
+            b[off:off + 6] = b"needle"
+        return bytes(b).decode("latin-1")
+    fcases, fmeta = [], []
+    for content in ["", "needle", big(4096, [0]), big(4097, [4091]), big(9000, [0]), big(9000, [8994]), big(20000, []), big(12289, [6000])]:
+        for mode in ("NEW", "OVERWRITE", "NOTHING"):
+            for src in ("replace all 'needle' with 'N'", "find all 'needle'", "replace all 'needle' with value value"):
+                if quick and rng.random() < 0.5:
+                    continue
+                fcases.append({"op": "files", "src_hex": vh.hexs(src), "files": [["f.txt", vh.hexs(content)]], "search": ["f.txt"], "mode": mode})
+                fmeta.append((src, mode, len(content)))
+    fres = vh.run_cases(fcases, shards=8, timeout_ms=20000)
+    for (src, mode, n), r in zip(fmeta, fres):
+        if "panic" in r or r.get("hang") or r.get("fatal") or r.get("oom"):
+            ctx.violation("RunFiles of an accepted program panics or does not return", {"source": src, "mode": mode, "file_size": n, "outcome": str({k: v for k, v in r.items() if k != "stack"})[:300]})
+    ctx.coverage["runfiles_cases"] = len(fcases)
     ctx.coverage["evaluations"] = stats["attempt_texts"]
     ctx.coverage["distinct_nontrivial"] = len({(c["src"], t) for c in cases for t in c["texts"]}) if len(cases) < 20000 else stats["attempt_texts"]
     ctx.coverage["agreement"] = stats
